@@ -29,7 +29,7 @@ STAT_OF = {'maxsize': 'size', 'minsize': 'size', 'gen': 'profile', 'gre': 'profi
 
 
 def budget(tier):
-    return 12000 if tier == 'quick' else 110000
+    return 12000 if tier == 'quick' else 300000
 
 
 @st.composite
